@@ -11,7 +11,9 @@ import pipeline
 
 BRANCHES = {'beq', 'bne', 'blt', 'bge', 'bltu', 'bgeu'}
 TRANSFER_KINDS = {'beq', 'bne', 'blt', 'bge', 'bltu', 'bgeu', 'cbeqz', 'beqz', 'bnez', 'blez', 'bgez', 'bltz', 'bgtz', 'bgt', 'ble',
-                  'bgtu', 'bleu', 'j', 'jal', 'jalx', 'call', 'tail'}
+                  'bgtu', 'bleu', 'j', 'jal', 'jalx', 'call', 'tail', 'xcj', 'xcjal', 'xcbeqz', 'xcbnez'}
+# explicitly written compressed transfers: what the (expansion of the) emitted halfword has to be, besides landing on the label
+EXPLICIT_C = {'xcj': ('jal', 0), 'xcjal': ('jal', 1), 'xcbeqz': ('beq', None), 'xcbnez': ('bne', None)}
 
 
 def short(src, n=400):
@@ -90,6 +92,14 @@ def check_C03(ctx, prog, real, recs):
                     prog_input(prog), [r['dec'] for r in mine], 'a transfer to ' + m['label'], {'kind': 'transfer-shape', 'ref': m['kind']})
             continue
         ctx.nontriv((m['kind'], want - mine[0]['off'] if want is not None else None, prog.get('compress', False)))
+        if m['kind'] in EXPLICIT_C:
+            name, link = EXPLICIT_C[m['kind']]
+            d = mine[0]['dec']
+            shape_ok = (len(mine) == 1 and mine[0]['size'] == 2 and d[0] == name and
+                        (int(d[1]) == link if name == 'jal' else int(d[2]) == 0 and 8 <= int(d[1]) <= 15))
+            if not shape_ok:
+                ctx.cex('line {} "{}" was emitted as {} ({} bytes)'.format(m['line'], m['text'], d, mine[0]['size']), prog_input(prog),
+                        d, 'one halfword expanding to {}'.format(name), {'kind': 'transfer-shape', 'ref': m['kind']})
         if t[0] != want:
             near = (m['kind'] in ('call', 'tail') and len(mine) == 1)
             ctx.cex('line {} "{}" at offset {} transfers to {} but label {} is at {}'.format(
@@ -335,7 +345,7 @@ def norm_dec(d):
 
 
 TRANSFER_HEADS = {'beq', 'bne', 'blt', 'bge', 'bltu', 'bgeu', 'beqz', 'bnez', 'blez', 'bgez', 'bltz', 'bgtz', 'bgt', 'ble', 'bgtu',
-                  'bleu', 'j', 'jal', 'call', 'tail'}
+                  'bleu', 'j', 'jal', 'call', 'tail', 'c.j', 'c.jal', 'c.beqz', 'c.bnez'}
 
 
 def absolute_label_cause(lines, n, ru):
